@@ -37,7 +37,7 @@ def plan(tier, seed):
     quick = tier == "quick"
     return {
         "nshards": 16,
-        "params": {"soft_s": 1500 if quick else 5400, "nprograms": 60 if quick else 700, "script_len": 8 if quick else 20, "ninputs": 5 if quick else 12},
+        "params": {"soft_s": 1500 if quick else 5400, "nprograms": 60 if quick else 240, "script_len": 8 if quick else 12, "ninputs": 5 if quick else 8},
         "hard_timeout_s": 2700 if quick else 9000,
     }
 
